@@ -565,7 +565,7 @@ pub fn venue_v4_lines(rng: &mut Rng, n: usize, out: &mut Vec<String>) {
         let (l, c, d, p) = crate::fam_integr::gen_reserve_price(rng);
         let mut vdata: Vec<u8> = Vec::new();
         let vowner;
-        let (x, y, z): (i128, u64, u8);
+        let (x, y, z): (String, u64, u8); // (x as text: Drift's cumulative interest is a u128 and may exceed i128)
         match venue {
             0 => {
                 if l < 0 || (l >> 48) > u64::MAX as i128 { continue; }
@@ -577,7 +577,7 @@ pub fn venue_v4_lines(rng: &mut Rng, n: usize, out: &mut Vec<String>) {
                 vdata.extend_from_slice(<kamino_mocks::state::MinimalReserve as Discriminator>::DISCRIMINATOR);
                 vdata.extend_from_slice(bytemuck::bytes_of(&r));
                 vowner = kamino_mocks::ID;
-                (x, y, z) = (l, c, d);
+                (x, y, z) = (l.to_string(), c, d);
             }
             1 => {
                 if l < 0 || (l >> 48) > u64::MAX as i128 { continue; }
@@ -589,7 +589,7 @@ pub fn venue_v4_lines(rng: &mut Rng, n: usize, out: &mut Vec<String>) {
                 vdata.extend_from_slice(<solend_mocks::state::SolendMinimalReserve as Discriminator>::DISCRIMINATOR);
                 vdata.extend_from_slice(bytemuck::bytes_of(&r));
                 vowner = solend_mocks::ID;
-                (x, y, z) = ((l >> 48) << 48, c, d);
+                (x, y, z) = (((l >> 48) << 48).to_string(), c, d);
             }
             _ => {
                 let cum = crate::fam_integr::cum_interest(rng);
@@ -597,7 +597,7 @@ pub fn venue_v4_lines(rng: &mut Rng, n: usize, out: &mut Vec<String>) {
                 vdata.extend_from_slice(<drift_mocks::state::MinimalSpotMarket as Discriminator>::DISCRIMINATOR);
                 vdata.extend_from_slice(bytemuck::bytes_of(&m));
                 vowner = drift_mocks::ID;
-                (x, y, z) = (cum as i128, 0, 0);
+                (x, y, z) = (cum.to_string(), 0, 0);
             }
         }
         // price components: a positive price, a time-weighted price within +-10 %, confidences of 0 .. 6 % (around the gates)
